@@ -14,6 +14,7 @@ theorem c_mac_pos : 0 < macLength := by decide
 theorem c_mac_le : macLength ≤ maxHandshakeLength := by decide
 theorem c_mac_dh : macLength ≤ dhSize := by decide
 theorem c_dh_win : dhSize ≤ maxHandshakeLength - macLength := by decide
+theorem c_min_le_max : minHandshakeLength ≤ maxHandshakeLength := by decide
 
 /-! ## slices and `bytes.Index` on prefixes -/
 
@@ -348,6 +349,216 @@ theorem dhLoop_conforming (c : Conf P kB priv E Y pad T ss) (cs : List Bytes) :
       exact hl
 
 end parser
+
+/-! ## what a completing client has verified (arbitrary input) -/
+
+theorem slice?_some {b : Bytes} {lo hi : Nat} {x : Bytes} (h : slice? b lo hi = some x) :
+    lo ≤ hi ∧ hi ≤ b.length ∧ x = (b.take hi).drop lo := by
+  unfold slice? at h
+  split at h
+  · rename_i hc
+    simp only [Option.some.injEq] at h
+    exact ⟨hc.1, hc.2, h.symm⟩
+  · cases h
+
+theorem parseTail_ok {P : Prims} {hs : DhHs} {y resp : Bytes} {hs' : DhHs} {n : Nat} {seed : Bytes}
+    (h : hs.parseTail P true y resp = (hs', .ok n seed)) :
+    dhSize + 2 * macLength ≤ n ∧ n ≤ resp.length ∧
+    mac128 P hs.kB (hs.macBuf ++ (resp.take (n - macLength)).drop dhSize ++ hs.epochHour)
+      = (resp.take n).drop (n - macLength) := by
+  unfold DhHs.parseTail at h
+  dsimp only at h
+  split at h
+  · cases h
+  · split at h
+    · cases h
+    · split at h
+      · split at h <;> cases h
+      · rename_i pos _
+        simp only [↓reduceIte] at h
+        split at h
+        · cases h
+        · split at h
+          · rename_i body macRx hb hmr
+            obtain ⟨_, _, rfl⟩ := slice?_some hb
+            obtain ⟨_, hle, rfl⟩ := slice?_some hmr
+            split at h
+            · cases h
+            · rename_i hmacok
+              split at h
+              · cases h
+              · simp only [Prod.mk.injEq, ParseRes.ok.injEq] at h
+                obtain ⟨_, rfl, _⟩ := h
+                refine ⟨by omega, hle, ?_⟩
+                have e1 : pos + dhSize + 2 * macLength - macLength = pos + dhSize + macLength := by omega
+                rw [e1]
+                exact Decidable.of_not_not hmacok
+          · cases h
+
+
+theorem parseTail_notYet {P : Prims} {hs : DhHs} {y resp : Bytes} {hs' : DhHs}
+    (h : hs.parseTail P true y resp = (hs', .notYet)) : hs' = hs := by
+  unfold DhHs.parseTail at h
+  dsimp only at h
+  split at h
+  · cases h
+  · split at h
+    · cases h
+    · split at h
+      · split at h
+        · cases h
+        · simp only [Prod.mk.injEq, and_true] at h; exact h.symm
+      · simp only [↓reduceIte] at h
+        split at h
+        · simp only [Prod.mk.injEq, and_true] at h; exact h.symm
+        · split at h
+          · split at h
+            · cases h
+            · split at h <;> cases h
+          · cases h
+
+/-- loop invariant on ARBITRARY input: the cache, if set, holds the first `dhSize` bytes received -/
+structure InvG (kB E buf : Bytes) (hs : DhHs) : Prop where
+  hkB : hs.kB = kB
+  hhour : hs.epochHour = E
+  cached : hs.serverPub = none ∨
+    (dhSize ≤ buf.length ∧ hs.serverPub = some (buf.take dhSize) ∧ hs.macBuf = buf.take dhSize)
+
+theorem InvG.mono {kB E buf : Bytes} {hs : DhHs} (h : InvG kB E buf hs) (c : Bytes) : InvG kB E (buf ++ c) hs := by
+  refine ⟨h.hkB, h.hhour, ?_⟩
+  rcases h.cached with hn | ⟨hl, hp, hm⟩
+  · exact Or.inl hn
+  · refine Or.inr ⟨by rw [List.length_append]; omega, ?_, ?_⟩
+    · rw [hp, List.take_append_of_le_length hl]
+    · rw [hm, List.take_append_of_le_length hl]
+
+/-- the statement a completed handshake certifies about the received bytes `W`: the last
+    `macLength` of the `n` consumed bytes are a valid tag under `kB` for everything before them
+    followed by the client's epoch hour -/
+def Verified (P : Prims) (kB E W : Bytes) (n : Nat) : Prop :=
+  minHandshakeLength ≤ n ∧ n ≤ W.length ∧
+  mac128 P kB (W.take (n - macLength) ++ E) = (W.take n).drop (n - macLength)
+
+theorem parse_general {P : Prims} {kB E buf : Bytes} {hs : DhHs} (hi : InvG kB E buf hs) :
+    (∀ hs', hs.parse P true buf = (hs', .notYet) → InvG kB E buf hs') ∧
+    (∀ hs' n seed, hs.parse P true buf = (hs', .ok n seed) → Verified P kB E buf n) := by
+  have h1 := c_min
+  -- the cached case, shared by both branches of `cache`
+  have key : ∀ hs1 : DhHs, hs1.kB = kB → hs1.epochHour = E → dhSize ≤ buf.length →
+      hs1.serverPub = some (buf.take dhSize) → hs1.macBuf = buf.take dhSize →
+      (∀ hs', hs1.parseTail P true (buf.take dhSize) buf = (hs', .notYet) → InvG kB E buf hs') ∧
+      (∀ hs' n seed, hs1.parseTail P true (buf.take dhSize) buf = (hs', .ok n seed) → Verified P kB E buf n) := by
+    intro hs1 hk he hl hp hm
+    constructor
+    · intro hs' h
+      rw [parseTail_notYet h]
+      exact ⟨hk, he, Or.inr ⟨hl, hp, hm⟩⟩
+    · intro hs' n seed h
+      obtain ⟨hn1, hn2, hv⟩ := parseTail_ok h
+      refine ⟨by omega, hn2, ?_⟩
+      rw [hk, he, hm] at hv
+      rw [← hv]
+      congr 2
+      have : (buf.take (n - macLength)).take dhSize = buf.take dhSize := by
+        rw [List.take_take]; congr 1; omega
+      rw [← this, List.take_append_drop]
+  unfold DhHs.parse
+  by_cases hlen : buf.length < minHandshakeLength
+  · simp only [hlen, ↓reduceIte]
+    constructor
+    · intro hs' h; simp only [Prod.mk.injEq, and_true] at h; exact h ▸ hi
+    · intro hs' n seed h; cases h
+  · simp only [hlen, ↓reduceIte]
+    have hl : dhSize ≤ buf.length := by omega
+    rcases hi.cached with hn | ⟨_, hp, hm⟩
+    · have hc : hs.cache P buf = some (⟨hs.kB, hs.priv, hs.pubX, hs.epochHour, buf.take dhSize,
+          some (buf.take dhSize), mac128 P hs.kB (buf.take dhSize)⟩, buf.take dhSize) := by
+        simp only [DhHs.cache, hn, slice?_eq (Nat.zero_le _) hl, List.drop_zero]
+      simp only [hc]
+      exact key _ hi.hkB hi.hhour hl rfl rfl
+    · have hc : hs.cache P buf = some (hs, buf.take dhSize) := by simp only [DhHs.cache, hp]
+      simp only [hc]
+      exact key hs hi.hkB hi.hhour hl hp hm
+
+/-- the read loop on ANY input: if it completes, the bytes consumed verify under `kB` -/
+theorem dhLoop_verified {P : Prims} {kB E : Bytes} (cs : List Bytes) :
+    ∀ (buf : Bytes) (hs : DhHs) (seed rest : Bytes) (unread : List Bytes), InvG kB E buf hs →
+      dhLoop P true hs buf cs = .done seed rest unread →
+      Verified P kB E (buf ++ cs.flatten)
+        ((buf ++ cs.flatten).length - (rest.length + unread.flatten.length)) := by
+  induction cs with
+  | nil => intro buf hs seed rest unread _ h; simp [dhLoop] at h
+  | cons c cs ih =>
+    intro buf hs seed rest unread hi h
+    have hi' := hi.mono c
+    obtain ⟨hny, hok⟩ := parse_general (P := P) hi'
+    simp only [dhLoop] at h
+    cases hp : hs.parse P true (buf ++ c) with
+    | mk hs' res =>
+      rw [hp] at h
+      cases res with
+      | notYet =>
+        simp only at h
+        have := ih (buf ++ c) hs' seed rest unread (hny hs' hp) h
+        simpa [List.append_assoc] using this
+      | ok n sd =>
+        simp only [HsOutcome.done.injEq] at h
+        obtain ⟨rfl, rfl, rfl⟩ := h
+        obtain ⟨hv1, hv2, hv3⟩ := hok hs' n sd hp
+        have hlen : (buf ++ (c :: cs).flatten).length
+            - (((buf ++ c).drop n).length + cs.flatten.length) = n := by
+          simp only [List.flatten_cons, List.length_append, List.length_drop] at hv2 ⊢
+          omega
+        rw [hlen]
+        have hW : buf ++ (c :: cs).flatten = (buf ++ c) ++ cs.flatten := by
+          simp [List.append_assoc]
+        refine ⟨hv1, by rw [hW, List.length_append]; omega, ?_⟩
+        rw [hW, List.take_append_of_le_length (by omega), List.take_append_of_le_length hv2]
+        exact hv3
+      | invalid => simp at h
+      | dhErr => simp at h
+      | panic => simp at h
+
+/-! ## the handshake buffer stays bounded (arbitrary input) -/
+
+theorem indexOf_fits {pat w : Bytes} {q : Nat} (hp : pat ≠ []) (h : Idx.indexOf pat w = some q) :
+    q + pat.length ≤ w.length := by
+  rw [Idx.indexOf_eq_some pat hp] at h
+  have hpos : 0 < pat.length := List.length_pos_iff.mpr hp
+  have := h.1.length_le
+  simp only [List.length_drop] at this
+  omega
+
+/-- "not yet" is only ever answered below `maxHandshakeLength` bytes -/
+theorem parseTail_notYet_bound {P : Prims} {hs : DhHs} {y resp : Bytes} {hs' : DhHs}
+    (hmark : hs.serverMark.length = macLength)
+    (h : hs.parseTail P true y resp = (hs', .notYet)) : resp.length < maxHandshakeLength := by
+  have hm0 := c_mac_pos
+  have hml := c_mac_le
+  have hne : hs.serverMark ≠ [] := by intro e; rw [e] at hmark; simp at hmark; omega
+  unfold DhHs.parseTail at h
+  dsimp only at h
+  split at h
+  · cases h
+  · split at h
+    · cases h
+    · rename_i window hw
+      obtain ⟨_, _, rfl⟩ := slice?_some hw
+      split at h
+      · split at h
+        · cases h
+        · omega
+      · rename_i pos hidx
+        have hfit := indexOf_fits hne hidx
+        simp only [List.length_drop, List.length_take, hmark] at hfit
+        simp only [↓reduceIte] at h
+        split at h
+        · omega
+        · split at h
+          · split at h
+            · cases h
+            · split at h <;> cases h
+          · cases h
 
 /-! ## ticket store -/
 
